@@ -81,6 +81,9 @@ def fault_atoms():
         [["on_disconnect_send", "zone_ctrl", "idem"], ["on_connect_send", "ac_ctrl", "idem"],
          ["fin"]],
         [["slow_conn", 3.0], ["fin"]],
+        # subscribers that return a Future / gather / Task / custom awaitable
+        [["odd_subs"], ["fin"], ["status"]],
+        [["odd_subs"], ["wfail", 1]],
     ]
 
 
@@ -177,6 +180,11 @@ def cases(tier, seed):
         ("D11b", [["net", "refuse", 0.0], ["send_bad", "value", "inline"],
                   ["send", "zone_ctrl", "long", "inline"], ["adv", 2.0]]),
     ]
+    # an outage of more than a thousand failed attempts in a row (an hour of retries)
+    anchors.append(("long_outage", [["q"], ["net_default", "refuse", 0.0], ["fin"],
+                                    ["adv", 2300.0]]))
+    anchors.append(("odd_subscribers", [["odd_subs"], ["q"], ["status"], ["rst"], ["adv", 0.5],
+                                        ["send", "zone_ctrl", "idem", "inline"]]))
     for gen in (4, 5):
         for name, ops in anchors:
             yield {"gen": gen, "ops": ops, "anchor": name}
